@@ -136,7 +136,7 @@ def _compact_case(beh: Dict[str, Any], want_stages: bool, want_events: bool) -> 
     c["exc"] = beh["exc"]
     c["reached"] = beh["reached"]
     if want_stages:
-        c["stages"] = [{"name": nm, "H": st["H"], "dup": st["dup"], "ord": st["ord"], "ng": st["ng"], "hook": beh.get("hook", {}).get(nm, {})} for nm, st in beh["stages"].items()]
+        c["stages"] = [{"name": nm, "H": st["H"], "dup": st["dup"], "ord": st["ord"], "ng": st["ng"], "bp": st.get("bp", {}), "hook": beh.get("hook", {}).get(nm, {})} for nm, st in beh["stages"].items()]
     if want_events:
         c["init"] = beh["init"]
         c["events"] = beh["events"]
